@@ -247,3 +247,25 @@ package scan
 //@   props C15
 //@   observe Take, Scan
 //@   entry row charged: [call Take(s.limiter) ; call Scan(s.Scanner, ctx, r) as (res, e)] when ret0 == res && ret1 == e -> exit
+
+// ---------------------------------------------------------------------------------------------
+// C19: live mode. One iteration of the live loop either forwards one request of the current pass unchanged,
+// or - only once the current pass has ended - arms a timer of exactly rescanTimeout and then either exits on
+// cancellation or starts exactly one new pass. The only exit is cancellation; a pass that fails to start
+// leaves the loop alive (the next read blocks until cancellation).
+//@ func (*liveRequestGenerator).GenerateRequests$1
+//@   props C19 C12
+//@   observe time.After, GenerateRequests
+//@   loop 0 row forward:   [recv pre(requests) as (rq, true) ; send? out rq] -> continue
+//@   loop 0 row pass_end:  [recv pre(requests) as (rq, false) ; call time.After(rg.rescanTimeout) as (t) ; recv t as (_, _) ; call GenerateRequests(rg.delegate, ctx, r) as (nr, e)]
+//@                            when requests == nr -> continue
+//@   loop 0 row end_c:     [recv pre(requests) as (rq, false) ; call time.After(rg.rescanTimeout) as (t) ; ctxdone ; close out] -> exit
+//@   loop 0 row cancel:    [ctxdone ; call time.After(rg.rescanTimeout) as (t) ; ctxdone ; close out] -> exit
+//@   loop 0 row cancel_t:  [ctxdone ; call time.After(rg.rescanTimeout) as (t) ; recv t as (_, _) ; call GenerateRequests(rg.delegate, ctx, r) as (nr, e)]
+//@                            when requests == nr -> continue
+//@ func (*liveRequestGenerator).GenerateRequests
+//@   props C19
+//@   observe GenerateRequests
+//@   entry row fail:  [call GenerateRequests(rg.delegate, ctx, r) as (rq, e)] when e != nil && ret0 == nil && ret1 == e -> exit
+//@   entry row start: [call GenerateRequests(rg.delegate, ctx, r) as (rq, e) ; go (*liveRequestGenerator).GenerateRequests$1(bind_o, bind_c, bind_rq2, bind_g2, bind_r2)]
+//@                       when e == nil && ret1 == nil && ret0 == o && rq2 == rq && c == ctx && g2 == rg && r2 == r -> exit
